@@ -383,6 +383,8 @@ static int inc_open (char *buf, const char *name) {
   char *p;
 
   inc_lexically_normal (current_file, name, buf);
+  if (!legal_path (buf)) /* e.g. a name ending in ".." is appended as an ordinary component */
+    return -1;
   if ((fd = FILE_OPEN (buf, O_RDONLY)) != -1)
     {
       opt_trace (TT_COMPILE|3, "opened (fd %d): \"%s\"", fd, buf);
